@@ -114,7 +114,7 @@ def protocol_obligations(eng, max_candidates=3):
             # invariants are attached by what a loop does, not by its position: a loop that calls message_received forwards messages,
             # a loop that reads is_valid scans for a valid message
             def selector(qual, stmt, no, self_=self_):
-                if qual != base + ".data_received" or not isinstance(stmt, ast.For): return None
+                if not qual.startswith(base + ".") or not isinstance(stmt, ast.For): return None
                 src = ast.unparse(stmt)
                 if "message_received" in src and "is_valid" not in src:
                     return ((lambda st_, e: q_is(st_, Q0, qn0, st_.locals["messages"].arr, to_int(st_.locals[f"__idx{no}"]))), None, {}, havoc_q)
